@@ -43,8 +43,16 @@ static Int do_draw(gmp_randstate_t s, const Draw& d, CaseInfo* ci) {
     case 5: case 6: { size_t ln = (size_t)(d.n % 40) + 1; Guarded g(ln); if (d.f == 5) mpn_randomb(g.p(), s, ln); else mpn_rrandom(g.p(), s, ln); REQUIRE(g.intact(), "%s: wrote outside n limbs", FN[d.f]); REQUIRE(g.p()[ln - 1] != 0, "%s(n=%zu): top limb is zero", FN[d.f], ln); return Int::from_limbs(g.p(), ln); }
     case 7: { uint64_t n = d.n % 65; uint64_t v = gmp_urandomb_ui(s, n); REQUIRE(n == 64 || v < (1ull << n), "gmp_urandomb_ui(%llu): returned 0x%llx", (unsigned long long)n, (unsigned long long)v); return Int::from_u64(v); }
     case 8: { uint64_t n = d.mod.low() ? d.mod.low() : 7; uint64_t v = gmp_urandomm_ui(s, n); REQUIRE(v < n, "gmp_urandomm_ui(%llu): returned %llu", (unsigned long long)n, (unsigned long long)v); return Int::from_u64(v); }
-    default: { uint64_t n = d.n % 2000 + 1; mpf_t f; mpf_init2(f, n); mpf_urandomb(f, s, n); int sz = f->_mp_size; size_t l = sz < 0 ? -sz : sz; Int m = Int::from_limbs((const uint64_t*)f->_mp_d, l, sz < 0); long e = f->_mp_exp; bool ok = sz >= 0 && (l == 0 || (e <= 0 || (e == 0))) ; bool lt1 = l == 0 || e <= 0; bool topnz = l == 0 || f->_mp_d[l - 1] != 0; bool zeroexp = l != 0 || e == 0; mpf_clear(f);
-      REQUIRE(ok && lt1, "mpf_urandomb(nbits=%llu): result not in [0,1) (size %d, exp %ld)", (unsigned long long)n, sz, e); REQUIRE(topnz && zeroexp, "mpf_urandomb: result violates the mpf format rules"); return ref::shl(m, 0) + Int((long long)e) * ref::pow2(70000); }
+    default: { uint64_t n = d.n % 2000 + 1; mpf_t f; mpf_init2(f, n);
+      // the request may be smaller or larger than the variable holds (then at most its precision is used), or zero; the variable holds an old value
+      uint64_t sel = d.mod.low() % 8, nbits = sel == 0 ? 0 : sel == 1 ? n / 2 : sel == 2 ? n + 64 : sel == 3 ? 64 * ((uint64_t)f->_mp_prec + 1) + 1 : sel == 4 ? 3 * n + 200 : n;
+      for (long i = 0; i <= f->_mp_prec; i++) f->_mp_d[i] = 0x5a5a5a5a5a5a5a5aull ^ d.mod.low(); f->_mp_size = (int)f->_mp_prec + 1; f->_mp_exp = 0; if (ci && nbits != n) ci->label(nbits == 0 ? "mpf_urandomb:zero_bits" : nbits > n ? "mpf_urandomb:more_bits_than_precision" : "mpf_urandomb:fewer_bits");
+      // the same draw from a copy of the state into a variable with a different old value must give the same result (nbits = 0 means full precision in this library)
+      gmp_randstate_t s2; gmp_randinit_set(s2, s); mpf_t f2; mpf_init2(f2, n); for (long i = 0; i <= f2->_mp_prec; i++) f2->_mp_d[i] = ~0ull; f2->_mp_size = -1; f2->_mp_exp = 7;
+      mpf_urandomb(f, s, nbits); mpf_urandomb(f2, s2, nbits); bool same = f->_mp_size == f2->_mp_size && f->_mp_exp == f2->_mp_exp && (f->_mp_size <= 0 || !memcmp(f->_mp_d, f2->_mp_d, (size_t)f->_mp_size * 8)); mpf_clear(f2); gmp_randclear(s2);
+      REQUIRE(same, "mpf_urandomb(nbits=%llu, precision %llu): the result depends on the old value of the destination (two equal states, two destinations)", (unsigned long long)nbits, (unsigned long long)n);
+      if (nbits != 0 && nbits < n && f->_mp_size != 0) { Int mm = Int::from_limbs((const uint64_t*)f->_mp_d, (size_t)f->_mp_size, false); long lowbit = 64 * ((long)f->_mp_exp - (long)f->_mp_size); uint64_t tz = 0; while (!ref::mtest(mm.m, tz)) tz++; REQUIRE(lowbit + (long)tz >= -(long)(nbits + 63) / 64 * 64, "mpf_urandomb(nbits=%llu): the result has bits below 2^-%llu (rounded up to whole limbs)", (unsigned long long)nbits, (unsigned long long)((nbits + 63) / 64 * 64)); } int sz = f->_mp_size; size_t l = sz < 0 ? -sz : sz; Int m = Int::from_limbs((const uint64_t*)f->_mp_d, l, sz < 0); long e = f->_mp_exp; bool ok = sz >= 0 && (l == 0 || (e <= 0 || (e == 0))) ; bool lt1 = l == 0 || e <= 0; bool topnz = l == 0 || f->_mp_d[l - 1] != 0; bool zeroexp = l != 0 || e == 0; mpf_clear(f);
+      REQUIRE(ok && lt1, "mpf_urandomb(nbits=%llu, precision %llu): result not in [0,1) (size %d, exp %ld)", (unsigned long long)nbits, (unsigned long long)n, sz, e); REQUIRE(l <= (size_t)((n + 63) / 64) + 2, "mpf_urandomb: more limbs than the precision allows"); REQUIRE(topnz && zeroexp, "mpf_urandomb: result violates the mpf format rules"); return ref::shl(m, 0) + Int((long long)e) * ref::pow2(70000); }
   }
 }
 static void case_history(ByteSource& in, CaseInfo& ci) {
@@ -94,5 +102,5 @@ static void check(ByteSource& in, CaseInfo& ci) { if (in.pick({30, 1}) == 0) cas
 namespace eng {
 PropDef g_prop = {"C19",
   "Cases: (a) histories: a generator of kind mt / lc_2exp(a,c,m2exp 2..300) / lc_2exp_size(1..128) seeded with 0, 1, 2^64-1, random or multi-limb seeds (gmp_randseed or gmp_randseed_ui), then 1..14 draws interleaving mpz_urandomb (n in 0,1,2,31..33,63..65,127..129, around the Mersenne Twister refill boundary 19937+-70, up to 60000), mpz_urandomm (n in 1,2,2^k,2^k+-1,odd limb,multi-limb, rop==n), mpz_rrandomb, mpn_urandomb/urandomm/randomb/rrandom, gmp_urandomb_ui/urandomm_ui, mpf_urandomb; a twin state (same algorithm and seed from the start, or a gmp_randinit_set copy made at a generated point) performs the same calls. (b) statistics batches of 16384 draws (1 in 31 cases): chi-square of the top and low 8 bits, every bit position within 8 sigma, chi-square of mpz_urandomm over 16 bins, and for the linear congruential kinds (table entries and user parameters with a=5 mod 8, c odd, m2exp>=32) the 4096-draw stream of 1-bit values must have no period <= 1024. Oracle: refint range checks (< 2^n, < n, top limb non-zero, 0 <= f < 1), twin equality after every step, fixed acceptance regions with false-alarm probability < 1e-12 per test. Non-trivial: history of >= 2 draws or a statistics batch. Distinct = hash of all decoded choices.",
-  check, nullptr, {"kind:mt", "kind:lc_2exp", "kind:lc_2exp_size", "twin:same_seed", "twin:randinit_set", "seed:multi_limb", "statistics", "one_bit_stream", "mt_refill_boundary_request", "urandomm:rop==n", "mpf_urandomb", "mpn_randomb", "urandomm:top_limb_one_low_limb_nonzero"}};
+  check, nullptr, {"kind:mt", "kind:lc_2exp", "kind:lc_2exp_size", "twin:same_seed", "twin:randinit_set", "seed:multi_limb", "statistics", "one_bit_stream", "mt_refill_boundary_request", "urandomm:rop==n", "mpf_urandomb", "mpn_randomb", "urandomm:top_limb_one_low_limb_nonzero", "mpf_urandomb:zero_bits", "mpf_urandomb:more_bits_than_precision"}};
 }
